@@ -38,7 +38,19 @@ PickBase == b = NULL /\ b' \in Bases /\ r' = NULL
 PickRef  == b # NULL /\ r = NULL /\ r' \in Refs /\ b' = b /\ PrintT(ToJson(Case(b, r')))
 \* the RFC's own examples, as cases for the real code too
 Examples == b = NULL /\ b' = Rfc54Base /\ r' = NULL
-Next == PickBase \/ PickRef \/ Examples
+\* references longer than 512 bytes with the shapes that need a shield or must not get one,
+\* and a base whose path contains percent-encoded dots (ordinary segments)
+RECURSIVE RepeatSeg(_, _)
+RepeatSeg(s, n) == IF n = 0 THEN <<>> ELSE s \o RepeatSeg(s, n - 1)
+Tail520 == RepeatSeg(<<47, 97, 98, 99, 100, 101, 102, 103, 104, 105>>, 52)            \* "/abcdefghi" x 52 = 520 bytes
+ExtraPairs == {<<<<115, 58, 47, 112>>, <<116, 58, 99, 58, 100>> \o Tail520>>,                       \* s:/p   t:c:d/...
+               <<<<115, 58, 47, 112>>, <<47, 120, 47, 46, 46, 47, 47, 101>> \o Tail520>>,           \* s:/p   /x/..//e/...
+               <<<<115, 58, 47, 47, 104, 47, 112>>, <<47, 120, 47, 46, 46, 47, 47, 101>> \o Tail520>>,
+               <<<<115, 58, 47, 47, 104, 47, 112>>, <<97, 47, 46, 46>> \o Tail520 \o <<47, 46>>>>,  \* a/../...long.../.
+               <<<<115, 58, 47, 47, 104, 47, 98, 47, 37, 50, 101, 37, 50, 101, 47, 99>>, <<46, 46, 47, 103>>>>,   \* s://h/b/%2e%2e/c   ../g
+               <<<<115, 58, 47, 47, 104, 47, 98, 47, 46, 37, 50, 69, 47, 99>>, <<46, 46, 47, 46, 46, 47, 103>>>>}
+Extra == b = NULL /\ \E pr \in ExtraPairs : b' = pr[1] /\ r' = pr[2] /\ PrintT(ToJson(Case(pr[1], pr[2])))
+Next == PickBase \/ PickRef \/ Examples \/ Extra
 
 HasDot(p) == \E i \in 1..Len(Segs(p)) : IsDotSeg(Segs(p)[i])
 
@@ -48,7 +60,7 @@ Rooted(B, R) ==
     ELSE IsAbs(R.path) \/ IsAbs(Merge(B, R.path))
 
 Theorems ==
-    (b # NULL /\ r # NULL) =>
+    (b # NULL /\ r # NULL /\ Len(r) < 100) =>
       LET res == ResolveSet(Fam, b, r)
       IN  /\ res # {}
           /\ \A t \in res :
